@@ -94,6 +94,21 @@ def handle : Handler := fun op args =>
       let rs := integSeq (polyEval c) (fun n i => ((zs n).getD i (0, 0)).1) (fun n i => ((zs n).getD i (0, 0)).2) reqs
       if rs.any (fun r => match r with | .ok _ => false | .error _ => true) then "err" else
       "ok " ++ toString rs.length ++ " " ++ " ".intercalate (rs.map (fun r => match r with | .ok v => showRat v | .error _ => "0/1"))
+  | "c12.reent" => withArgs (do
+        let nO ← pNat; let nI ← pNat; let a ← pRat; let b ← pRat
+        let l0 ← pRat; let l1 ← pRat; let h0 ← pRat; let h1 ← pRat
+        let ts ← pList (do let c ← pRat; let i ← pNat; let j ← pNat; pure (c, i, j))
+        pure (nO, nI, a, b, l0, l1, h0, h1, ts)) args
+      fun (nO, nI, a, b, l0, l1, h0, h1, ts) =>
+      match glRoots rnd cospiD epsQ fuelN nO, glRoots rnd cospiD epsQ fuelN nI with
+      | some zo, some zi =>
+        let tab (n : Nat) : List (Rat × Rat) := if n = nO then zo else zi
+        let g := fun (x y : Rat) => ts.foldl (fun acc (t : Rat × Nat × Nat) => acc + t.1 * x ^ t.2.1 * y ^ t.2.2) 0
+        match nestedGL g (fun x => l0 + l1 * x) (fun x => h0 + h1 * x) a b nO nI
+                (fun n i => ((tab n).getD i (0, 0)).1) (fun n i => ((tab n).getD i (0, 0)).2) with
+        | .ok v => "ok " ++ showRat v
+        | .error _ => "err"
+      | _, _ => "undef"
   | "c12.sumvals" => withArgs (do let v ← pRats; let rw ← pPairs; pure (v, rw)) args fun (v, rw) =>
       match integrateGLvals v rw with
       | .ok r => "ok " ++ showRat r
